@@ -472,7 +472,8 @@ class TifaCore:
                                        ['_tifa_definitions'])
             definitions = actual_module._tifa_definitions()
             return get_pedal_type_from_json(definitions)
-        except Exception as e:
+        except (Exception, SystemExit) as e:
+            # (the module's top-level code may even exit: import venv.__main__)
             error = e
         filename = chain.replace('.', '/') + ".py"
         if self.report.submission and filename in self.report.submission.files:
